@@ -25,8 +25,24 @@
       `defaultdict((a+b).c)`, K22; module level: K1, K8, K4, K2, K7, customOnDef, K11; result generation: K22, K9),
       each with the exception class the real code raises; the unconditional statements are refuted
       (`C07_full_false`, `C07_pipeline_full_false`).
-  Import following (several files), the cache and the CLI are covered by the raise-site table and by the CLI
-  sweep of py/props/c07.py, not by a theorem. `ResultsSafe` is a condition on the FileIr the front-stage MODEL
+  Round 3 (option combinations × degenerate inputs, file-system shapes):
+    * `C07_show_stats_no_crash` / `C07_output_stage_no_crash`: under EVERY `--stdout` value, for every target text,
+      every text behind every followed module and every final state of the import BFS, the output stage of `main`
+      does not raise — `show_stats` is partial (`C07_show_stats_ok_iff`: `log10` of the larger line count, two
+      divisions) and is saved only by the `+ 1` of `read` in another module (`C07_read_lines_pos`,
+      `C07_cex_show_stats_*`); Tie A `tieA_stats_exprs` pins every expression of that chain.
+    * `C07_import_error_classes`: when `resolve_import` raises `ImportError` for an import STATEMENT of the target
+      or of an analysed module, then the module is unresolved, has no file origin, or — the only class with a
+      file — the SAME ORIGIN was analysed under ANOTHER NAME (localised `C12_bfs_complete`, no injectivity
+      hypothesis); `C07_resolve_import_no_crash_partial` is the converse under `OriginInjective`; the class is real
+      (`C07_cex_resolve_two_names_one_origin`: `import pkg` + `import pkg.__init__`), a symlink is NOT in it
+      (`C07_symlinked_module_has_ir`: the seen-set is keyed by `spec.origin` as spelled, not by the real file).
+    * K23: `C07_K23_no_base_crashes` / `C07_K23_base_iff` / `C07_cex_K23_*`: the `raise ValueError  # never` of the
+      relative-import visitors is reached exactly when no right-suffix of the current file's dotted path is an
+      importable module (target outside the search path, dotted directory); never for a file the locator found
+      under its own name (`C07_K23_located_file_has_base`).
+  Import following (several files), the cache and the CLI are otherwise covered by the raise-site table and by the
+  CLI sweep of py/props/c07.py, not by a theorem. `ResultsSafe` is a condition on the FileIr the front-stage MODEL
   computes, not on the syntax of the module: that every name the analysers produce outside K22 starts with its
   basename is proved for `key=` lambda bodies only (`QName`, RattrProofs/Lemmas/C07Wide.lean).
 -/
@@ -38,6 +54,9 @@ import RattrProofs.Lemmas.C07File
 import RattrProofs.Lemmas.C07Results
 import RattrProofs.Lemmas.Results
 import RattrProofs.Props.C12
+import RattrModel.Stats
+import RattrModel.ImportWalk
+import RattrProofs.Lemmas.C07Imports
 
 namespace Rattr.C07
 open Rattr Rattr.FnA Rattr.Crash
@@ -51,9 +70,10 @@ theorem tieA_raise_sites : Generated.C07.raiseSites = classifiedRaiseSites.map (
 theorem tieA_assert_sites : Generated.C07.assertSites = classifiedAssertSites.map (·.site) := by
   decide +kernel
 
-/-- the crash rows that own a raise / assert site are known rows (K-rows of DESIGN §7 + K11). -/
+/-- the crash rows that own a raise / assert site are known rows (K-rows of DESIGN §7 + K11; K23 = the two
+`raise ValueError  # never` of the relative-import visitors, reclassified as reachable in round 3). -/
 theorem reachable_rows_listed :
-    reachableRows = ["K11", "K5", "K2", "K4", "K1", "K3", "K10", "K9", "K22", "K8"] := by
+    reachableRows = ["K11", "K5", "K2", "K4", "K1", "K23", "K3", "K10", "K9", "K22", "K8"] := by
   decide +kernel
 
 /-! ### Termination -/
@@ -489,5 +509,266 @@ theorem C07_cex_pipeline_modules_rejected :
     NoCrashShapePipeline cexEnv (S "target") {} exBuiltins mK22 [] = false ∧
     NoCrashShapePipeline cexEnv (S "target") fLp exBuiltins mK9 [(S "lp.nosuch.f", { found := false, blacklisted := false })] = false := by
   decide +kernel
+
+/-! ## Round 3 — (1) the output stage under every `--stdout` value (RattrModel/Stats.lean) -/
+
+open Rattr.Stats in
+/-- Tie A: every expression between `f.readlines()` and the two divisions of `show_stats` is the one the model
+transcribes (a `- 1` "fixing" the line count at either consumer, a dropped guard, a new output mode: all break it). -/
+theorem tieA_stats_exprs : Generated.C07.statsExprs = Stats.pinnedExprs := by decide +kernel
+
+/-- `read` never reports 0 lines: the empty file "has one line". This is the ONLY thing that keeps `show_stats`
+total, and it lives in `rattr/analyser/util.py`, not in `rattr/__main__.py`. -/
+theorem C07_read_lines_pos (s : Str) : 1 ≤ Stats.readLines s := by
+  unfold Stats.readLines; omega
+
+/-- what `show_stats` needs, exactly (every `RattrStats`, also those no run produces). -/
+theorem C07_show_stats_ok_iff (s : Stats.RunStats) (tz : Bool) :
+    Stats.showStats s tz = .ok ↔ (0 < max s.fileLines s.importLines ∧ s.fileLines ≠ 0 ∧ tz = false) := by
+  unfold Stats.showStats
+  by_cases h1 : max s.fileLines s.importLines ≤ 0
+  · simp only [h1, if_true]
+    constructor
+    · intro h; cases h
+    · intro ⟨h, _, _⟩; omega
+  · simp only [h1, if_false]
+    by_cases h2 : s.fileLines = 0
+    · simp [h2]
+    · simp only [h2, if_false]
+      cases tz
+      · simp; omega
+      · simp
+
+/-- **`--stdout stats` never dies of its arithmetic**: for EVERY target text, every text behind every module
+name and every final state of the import BFS (any number of followed imports, including none and including
+empty files everywhere), as long as the five timers do not sum to `0.0`. -/
+theorem C07_show_stats_no_crash {ν ω : Type} (target : Str) (src : ν → Str) (st : Imports.St ν ω) :
+    Stats.showStats (Stats.statsOf target src st) false = .ok := by
+  rw [C07_show_stats_ok_iff]
+  have h := C07_read_lines_pos target
+  have e1 : (Stats.statsOf target src st).fileLines = ((Stats.readLines target : Nat) : Int) := rfl
+  have e2 : (Stats.statsOf target src st).importLines = ((Stats.importLines src st.analysed : Nat) : Int) := rfl
+  rw [e1, e2]
+  exact ⟨by omega, by omega, rfl⟩
+
+/-- the same for `--follow-imports 0` (`RattrImportStats(0, 0, 0)`). -/
+theorem C07_show_stats_no_crash_no_follow (target : Str) :
+    Stats.showStats (Stats.statsOfNoFollow target) false = .ok := by
+  rw [C07_show_stats_ok_iff]
+  have h := C07_read_lines_pos target
+  have e1 : (Stats.statsOfNoFollow target).fileLines = ((Stats.readLines target : Nat) : Int) := rfl
+  have e2 : (Stats.statsOfNoFollow target).importLines = 0 := rfl
+  rw [e1, e2]
+  exact ⟨by omega, by omega, rfl⟩
+
+/-- **every output mode**: `-o stats | ir | results | cacheable | silent` × every run. -/
+theorem C07_output_stage_no_crash {ν ω : Type} (o : Stats.Output) (target : Str) (src : ν → Str)
+    (st : Imports.St ν ω) : Stats.outputOfRun o target src st false = .ok := by
+  unfold Stats.outputOfRun Stats.outputStage
+  cases o <;> first | rfl | exact C07_show_stats_no_crash target src st
+
+/-- the line count of degenerate files, by evaluation (tests): empty, one newline, no final newline, `\r\n`,
+lone `\r`, comment only. -/
+theorem C07_read_lines_degenerate :
+    [Stats.readLines [], Stats.readLines (S "\n"), Stats.readLines (S "pass"), Stats.readLines (S "pass\n"),
+     Stats.readLines (S "a\r\nb\r\n"), Stats.readLines (S "a\rb"), Stats.readLines (S "# c\n\n   \n"),
+     Stats.readLines (S "\r\n\n\r")] = [1, 2, 2, 2, 3, 3, 4, 4] := by decide +kernel
+
+/-- **`show_stats` itself is partial** (tests by evaluation): with the line counts an "off-by-one corrected"
+assembly would hand over for an empty target — `file_lines = import_lines = 0` — `log10(0)` raises `ValueError`;
+with an empty target and non-empty imports the average-badness division raises `ZeroDivisionError`. -/
+theorem C07_cex_show_stats_zero_lines :
+    Stats.showStats ⟨0, 0, 0, 0⟩ false = .crash "ValueError" ∧
+    Stats.showStats ⟨0, 7, 2, 2⟩ false = .crash "ZeroDivisionError" ∧
+    Stats.showStats ⟨-1, -1, 0, 0⟩ false = .crash "ValueError" ∧
+    Stats.showStats ⟨1, 0, 0, 0⟩ true = .crash "ZeroDivisionError" ∧
+    Stats.showStats ⟨1, 0, 0, 0⟩ false = .ok := by decide +kernel
+
+/-- … so the unconditional statement about `show_stats` is false. -/
+theorem C07_show_stats_full_false : ¬ ∀ s tz, Stats.showStats s tz = .ok := by
+  intro h
+  have := h ⟨0, 0, 0, 0⟩ false
+  revert this
+  decide
+
+/-! ## Round 3 — (2) `resolve_import` × the import BFS: which ImportError classes exist -/
+
+section ImportErrors
+open Rattr.Imports Rattr.Resolve Rattr.C12 Rattr.C07I
+variable {ν ω : Type} [DecidableEq ν] [DecidableEq ω]
+
+/-- The three ways `resolve_import` can raise `ImportError` for an import symbol that came from an import
+STATEMENT of the target or of an analysed module (the harness signs them `[module-unresolved]`,
+`[module-without-file]`, `[same-origin-under-another-name]`). -/
+inductive ImportErrorClass (g : Graph ν ω) (st : Imports.St ν ω) (i : Imp ν) : Prop where
+  | unresolved : i.target = none → ImportErrorClass g st i
+  | noFile (n : ν) : i.target = some n → originOf g n = none → ImportErrorClass g st i
+  | sameOrigin (n n' : ν) (o : ω) : i.target = some n → originOf g n = some o →
+      n' ∈ st.analysed → n' ≠ n → originOf g n' = some o → ImportErrorClass g st i
+
+/-- **Classification.** For EVERY module graph (several names per file, cycles), flags with `loc`, fuel: if the
+BFS ended normally and `resolve_import` raises for a statement import, one of the three classes holds. In
+particular a module WITH a file lacks its IR only because the same origin was analysed under another name. -/
+theorem C07_import_error_classes (g : Graph ν ω) (fl : Flags) (fuel : Nat) (target : List (Imp ν))
+    (st : Imports.St ν ω) (hdone : bfs g fl fuel target = .done st) (i : Imp ν)
+    (hsrc : i ∈ target ∨ ∃ p ∈ st.analysed, ∃ pm, lookup g p = some pm ∧ i ∈ pm.imports)
+    (hcrash : importAllowed g fl (irsKeys st.analysed) i = .crashNoModule ∨
+              importAllowed g fl (irsKeys st.analysed) i = .crashNotFound) :
+    ImportErrorClass g st i := by
+  have hst : (bfs g fl fuel target).state = st := by rw [hdone]; rfl
+  have hk := (C12_once g fl fuel target).2.2.1
+  rw [hst] at hk
+  rw [hk] at hcrash
+  cases ht : i.target with
+  | none => exact .unresolved ht
+  | some n =>
+    cases ho : originOf g n with
+    | none => exact .noFile n ht ho
+    | some o =>
+      obtain ⟨m, hl, hmo⟩ := originOf_some ho
+      unfold importAllowed at hcrash
+      rw [ht] at hcrash
+      simp only [hl] at hcrash
+      -- walk down the ladder: only the last rung can crash
+      by_cases hb : m.blacklisted = true
+      · simp [hb] at hcrash
+      · simp only [hb, Bool.false_eq_true, if_false] at hcrash
+        by_cases hloc : fl.loc = true
+        · simp only [hloc, Bool.not_true, Bool.false_eq_true, if_false] at hcrash
+          by_cases hpip : (!fl.pip && m.inPip) = true
+          · simp [hpip] at hcrash
+          · simp only [hpip, Bool.false_eq_true, if_false] at hcrash
+            by_cases hstd : (!fl.stdlib && m.inStdlib) = true
+            · simp [hstd] at hcrash
+            · simp only [hstd, Bool.false_eq_true, if_false] at hcrash
+              by_cases hin : n ∈ st.analysed
+              · simp [hin] at hcrash
+              · have hp : Passes g fl i n o :=
+                  { target := ht, origin := ho,
+                    notBlack := fun m' hl' => by
+                      rw [hl] at hl'; cases hl'; simpa using hb
+                    pipOk := fun m' hl' h => by
+                      rw [hl] at hl'; cases hl'
+                      cases hf : fl.pip
+                      · simp [hf, h] at hpip
+                      · rfl
+                    stdlibOk := fun m' hl' h => by
+                      rw [hl] at hl'; cases hl'
+                      cases hf : fl.stdlib
+                      · simp [hf, h] at hstd
+                      · rfl }
+                obtain ⟨n', hn', ho'⟩ := bfs_covers g fl fuel target st hloc hdone i hsrc n o hp
+                refine .sameOrigin n n' o ht ho hn' ?_ ho'
+                intro h; subst h; exact hin hn'
+        · have : fl.loc = false := by cases h : fl.loc <;> simp_all
+          simp [this] at hcrash
+
+/-- **Converse under injectivity** (C12's theorem, restated for the crash): with no file under two names and an
+honest blacklist, `resolve_import` never raises `ImportError("… not found")` for a statement import that has a file. -/
+theorem C07_resolve_import_no_crash_partial (g : Graph ν ω) (fl : Flags) (fuel : Nat) (target : List (Imp ν))
+    (st : Imports.St ν ω) (hinj : Spec.OriginInjective g) (hnb : Spec.NoOverBlacklist g) (hex : Spec.ExclusionHonoured g fl)
+    (hdone : bfs g fl fuel target = .done st) (i : Imp ν)
+    (hsrc : i ∈ target ∨ ∃ p ∈ st.analysed, ∃ pm, lookup g p = some pm ∧ i ∈ pm.imports)
+    (hres : hasOrigin g i = true) :
+    importAllowed g fl (irsKeys st.analysed) i ≠ .crashNotFound ∧
+    importAllowed g fl (irsKeys st.analysed) i ≠ .crashNoModule := by
+  refine ⟨C12_resolver_total g fl fuel target st hinj hnb hex hdone i hsrc hres, ?_⟩
+  unfold hasOrigin at hres
+  unfold importAllowed
+  cases ht : i.target with
+  | none => rw [ht] at hres; cases hres
+  | some n =>
+    simp only
+    cases hl : lookup g n with
+    | none => simp only; split <;> simp
+    | some m => simp only; repeat' split
+                all_goals simp
+
+end ImportErrors
+
+namespace R3
+open Rattr.Imports Rattr.Resolve
+
+def mkM (name origin : Nat) (imports : List (Imp Nat)) : Module Nat Nat :=
+  { name := name, origin := some origin, readable := true, blacklisted := false, inPip := false,
+    inStdlib := false, excluded := false, imports := imports }
+
+/-- `import pkg` (1) + `import pkg.__init__` (2): ONE origin (10 = `pkg/__init__.py`) under two names. -/
+def gInit : Graph Nat Nat := [mkM 1 10 [], mkM 2 10 []]
+def tInit : List (Imp Nat) := [⟨some 1, false⟩, ⟨some 2, false⟩]
+
+/-- `impl.py` (origin 10) and `compat.py -> impl.py` (origin 11: `spec.origin` is the path AS SPELLED by the
+module name; both have the real file 10). -/
+def gLink : Graph Nat Nat := [mkM 1 10 [], mkM 2 11 []]
+def realLink : Nat → Nat := fun _ => 10
+
+end R3
+
+open Rattr.Imports Rattr.Resolve R3 in
+/-- **The class is real** (known finding `[same-origin-under-another-name]`): the second name of the one origin
+is skipped as "seen", has no key in `import_irs`, and a call through it makes `resolve_import` raise. -/
+theorem C07_cex_resolve_two_names_one_origin :
+    (bfs gInit (Spec.levelFlags 1) (fuelBound gInit tInit) tInit).state.analysed = [1] ∧
+    importAllowed gInit (Spec.levelFlags 1) [1] ⟨some 2, false⟩ = .crashNotFound ∧
+    importAllowed gInit (Spec.levelFlags 1) [1] ⟨none, false⟩ = .crashNoModule := by decide +kernel
+
+open Rattr.Imports Rattr.Resolve R3 in
+/-- **A symlinked module file is NOT in that class** (test by evaluation; what a de-duplication by real path
+would break): the two names have different origins although they are one real file, both are analysed, both
+are keys, and the call through the alias resolves. -/
+theorem C07_symlinked_module_has_ir :
+    (bfs gLink (Spec.levelFlags 1) (fuelBound gLink tInit) tInit).state.analysed = [1, 2] ∧
+    importAllowed gLink (Spec.levelFlags 1) [1, 2] ⟨some 2, false⟩ = .found 2 ∧
+    Spec.originsCanonicalB gLink realLink = false := by decide +kernel
+
+/-! ## Round 3 — (3) K23: the `raise ValueError  # never` of the relative-import visitors -/
+
+section K23
+open Rattr.Locator Rattr.Walk
+
+/-- the visitor raises `ValueError` whenever the current file has no derivable module name … -/
+theorem C07_K23_no_base_crashes (P : Proj) (f : File) (c : Cur) (line level : Nat) (module : Option Dotted)
+    (names : List (Str × Option Str)) (st : Bool) (t : Tab) (s : Walk.St)
+    (h : deriveModuleNameFromPath P.env (curComps P c) = none) :
+    ∃ s', visitRel P f c line level module names st t s = .stop (.crash "ValueError") s' := by
+  unfold visitRel
+  rw [h]
+  exact ⟨_, rfl⟩
+
+/-- … which is the case exactly when NO right-suffix of the file's dotted path is an importable module. -/
+theorem C07_K23_base_iff (env : Locator.Env) (comps : List Str) :
+    deriveModuleNameFromPath env comps = none ↔
+      ∀ k, k < (longestName comps).length → moduleExists env ((longestName comps).drop k) = false := by
+  unfold deriveModuleNameFromPath iterModuleNamesLeft
+  rw [List.find?_eq_none]
+  constructor
+  · intro h k hk
+    have := h ((longestName comps).drop k) (List.mem_map.mpr ⟨k, List.mem_range.mpr hk, rfl⟩)
+    simpa using this
+  · intro h x hx
+    obtain ⟨k, hk, rfl⟩ := List.mem_map.mp hx
+    simp [h k (List.mem_range.mp hk)]
+
+/-- a file the locator finds under (a suffix of) its own dotted path has a base: every followed import (its
+`spec.origin` was produced by the locator from that very name) and every target inside the search path. -/
+theorem C07_K23_located_file_has_base (env : Locator.Env) (comps : List Str) (k : Nat)
+    (hk : k < (longestName comps).length) (hex : moduleExists env ((longestName comps).drop k) = true) :
+    deriveModuleNameFromPath env comps ≠ none := by
+  intro h
+  have := (C07_K23_base_iff env comps).mp h k hk
+  rw [this] at hex
+  cases hex
+
+def k23Env : Locator.Env := { fs := [[[S "target.py"], [S "pkg", S "__init__.py"], [S "pkg", S "x.py"]]], stdlib := [] }
+
+/-- **K23 is real** (tests by evaluation, each replayed on the implementation): `rattr ../other/t.py`
+(`"...other.t.py"`), `rattr a.b/t.py`, `rattr pkg/script` (no suffix) have no base; `rattr pkg/x.py` has. -/
+theorem C07_cex_K23_no_base :
+    deriveModuleNameFromPath k23Env [[], [], [], S "other", S "t", S "py"] = none ∧
+    deriveModuleNameFromPath k23Env [S "a", S "b", S "t", S "py"] = none ∧
+    deriveModuleNameFromPath k23Env [S "pkg", S "script"] = none ∧
+    deriveModuleNameFromPath k23Env [S "pkg", S "x", S "py"] = some [S "pkg", S "x"] := by decide +kernel
+
+end K23
 
 end Rattr.C07
